@@ -1504,7 +1504,7 @@ def discharge(res, eng, timeout, rename=None):
         key = tuple(c.get_id() for c in ob.pc) + tuple(c.get_id() for c in ob.axioms)
         if key != cur_key:
             sol = z3.Solver()
-            sol.set("timeout", timeout)
+            sol.set("timeout", backends.scaled_timeout(timeout))
             sol.add(*ob.pc)
             sol.add(*ob.axioms)
             cur_key = key
